@@ -2,8 +2,6 @@ import os, re
 import runner as R
 from props import *
 
-DISABLED = 'temporarily not registered: one proof is being adapted to a model change'
-
 MANIFEST = dict(
     text="Proved in Lean over the single-source machine semantics extended with faults (every invocation of user code: ok | panic(error) | panic(value) | error return; "
          "tryNext/tryError/tryComplete, SubscribeWithContext's recover, execFinalizer and subscription.Add read line by line): for every operator machine (parametric in its callbacks), "
